@@ -370,7 +370,11 @@ def apply_init(o, t, ini, st):
 
 def run_list(o, t, items, st):
     cursor = [0]
+    popped = False      # the cursor left an inner aggregate that was entered by a nested designator
     for desig, ini in items:
+        if not desig and popped and ini['k'] == 's':
+            # gcc applies such a string to the enclosing array of the designated element, 6.7.9p17 reads as "next subobject"
+            st.undefined = "string literal following a nested designator that ended an inner aggregate"
         if desig:
             paths = resolve(t, desig)
             st.flags.add('designator')
@@ -402,6 +406,8 @@ def run_list(o, t, items, st):
             apply_init(co, ct, ini, st)
             endp = p
         cursor = advance(t, endp)
+        if desig:
+            popped = len(desig) > 1 and cursor is not None and len(cursor) < len(endp)
 
 
 def evaluate(t, ini):
